@@ -105,6 +105,7 @@ type tcpOpt func(cfg *tcpserver.Config)
 func (o tcpOpt) TCPServerApply(cfg *tcpserver.Config) { o(cfg) }
 
 type TCP struct {
+	Tick      func(now time.Time) bool // the housekeeping function the server handed to its PeriodicRunner
 	S         *tcpserver.Server
 	L         *Listener
 	Errors    []string
@@ -130,7 +131,7 @@ func NewTCP(o StreamOpts) *TCP {
 	t.S = tcpserver.New(tcpOpt(func(cfg *tcpserver.Config) {
 		cfg.Handler = o.TCPHandler
 		cfg.Errors = func(err error) { t.Errors = append(t.Errors, err.Error()) }
-		cfg.PeriodicRunner = func(func(time.Time) bool) {}
+		cfg.PeriodicRunner = func(f func(time.Time) bool) { t.Tick = f }
 		cfg.MessagePool = pool.New(0, 0)
 		cfg.GetToken = func() (message.Token, error) { tok++; return message.Token{0xdd, tok}, nil }
 		cfg.DisableTCPSignalMessageCSM = !o.EnableCSM
